@@ -397,12 +397,17 @@ def _ddl_cases(draw):
     for kind in ("ix", "uq", "ck", "fk", "pk"):
         if collide or draw(st.integers(0, 4)) > 0:
             conv[kind] = tmpl(kind)
-    ns = st.one_of(st.none(), st.none(), st.tuples(st.sampled_from(["plain", "conv"]), st.sampled_from([3, 9, 10, 11, 30, 63, 64, 65, 127, 128, 129, 200]), st.integers(0, 255)).map(list))
+    dialect = draw(st.integers(0, 5))
+    maxlen = draw(st.sampled_from(MAXLENS[2:] if collide and draw(st.booleans()) else MAXLENS))
+    lim = 64 if dialect == 2 else (maxlen or [199, 63, 64, 199, 128, 128][dialect])  # effective constraint/index name limit
+    # explicit / conv() names, a third of them exactly at the limit -1 / 0 / +1
+    ns = st.one_of(st.none(), st.none(), st.tuples(st.sampled_from(["plain", "conv"]), st.sampled_from([3, 9, 10, 11, 30, 63, 64, 65, 127, 128, 129, 200]), st.integers(0, 255)).map(list),
+                   st.tuples(st.sampled_from(["plain", "conv", "conv"]), st.sampled_from([lim - 1, lim, lim + 1]), st.integers(0, 255)).map(list))
     cons = []
     for _ in range(draw(st.integers(3 if collide else 1, 7))):
         kind = draw(st.sampled_from(["uq", "ix", "ck", "fk", "fk", "colunique", "colindex", "uq", "ix"]))
         cons.append([kind, draw(st.integers(0, 1)), draw(st.lists(st.integers(0, 4), min_size=1, max_size=3)), draw(ns)])
-    return {"dialect": draw(st.integers(0, 5)), "maxlen": draw(st.sampled_from(MAXLENS[2:] if collide and draw(st.booleans()) else MAXLENS)), "conv": conv, "tables": tables, "cons": cons,
+    return {"dialect": dialect, "maxlen": maxlen, "conv": conv, "tables": tables, "cons": cons,
             "pk": [draw(st.integers(1, 2)), draw(ns)], "strict_err": draw(st.integers(0, 9)) == 0}
 
 
